@@ -285,7 +285,7 @@ pub fn structural_probes() -> Vec<Probe> {
     }
     // every operation that takes a context (or another branded value) together with a pointer demands
     // the same brand for both: a foreign arena's context must be rejected
-    let pairs: [(&str, &str, &str); 24] = [
+    let pairs: [(&str, &str, &str); 30] = [
         ("GcWeak::upgrade", "mc: &Mutation<'b>, g: GcWeak<'a, u8>", "let _ = g.upgrade(mc);"),
         ("Gc::write", "mc: &Mutation<'b>, g: Gc<'a, RefLock<u8>>", "let _ = Gc::write(mc, g);"),
         ("Gc::unlock", "mc: &Mutation<'b>, g: Gc<'a, RefLock<u8>>", "let _ = g.unlock(mc);"),
@@ -310,6 +310,12 @@ pub fn structural_probes() -> Vec<Probe> {
         ("ZstCache::alloc_static", "mc: &Mutation<'b>, g: ZstCache<'a, 8>", "let _ = g.alloc_static(mc, ());"),
         ("ZstCache::is_cached", "g: ZstCache<'a, 8>, p: Gc<'b, ()>", "let _ = g.is_cached(p);"),
         ("Gc::ptr_eq", "g: Gc<'a, u8>, p: Gc<'b, u8>", "let _ = Gc::ptr_eq(g, p);"),
+        ("GcBuilder::write", "mc: &Mutation<'b>, g: gc_arena::GcBuilder<'a, u8>", "let _ = g.write(mc, 1);"),
+        ("GcSliceBuilder::write_slice_with", "mc: &Mutation<'b>, g: gc_arena::GcSliceBuilder<'a, u8>", "let _ = g.write_slice_with(mc, |i| i as u8);"),
+        ("GcSliceBuilder::copy_slice", "mc: &Mutation<'b>, g: gc_arena::GcSliceBuilder<'a, u8>", "let _ = g.copy_slice(mc, &[]);"),
+        ("GcStrBuilder::copy_str", "mc: &Mutation<'b>, g: gc_arena::GcStrBuilder<'a>", "let _ = g.copy_str(mc, \"\");"),
+        ("slice-with-header builder write_slice_with", "mc: &Mutation<'b>, g: gc_arena::slice::GcSliceWithHeaderSliceBuilder<'a, u8, u8>", "let _ = g.write_slice_with(mc, |i| i as u8);"),
+        ("slice-with-header builder copy_slice", "mc: &Mutation<'b>, g: gc_arena::slice::GcSliceWithHeaderSliceBuilder<'a, u8, u8>", "let _ = g.copy_slice(mc, &[]);"),
     ];
     for (n, args, body) in pairs {
         let neg = format!("{PRELUDE}\nfn foreign<'a, 'b>({args}) {{ {body} }}\nfn main() {{}}\n");
